@@ -6,7 +6,7 @@
    calcPATSectionLength are re-translated from the source on every run. *)
 From Coq Require Import ZArith List Lia.
 Require Import Base.Bits Base.Iter Base.Wr Gen.Consts Gen.Types Gen.Preds Model.Packet Model.Psi.
-Require Import Model.Desc Spec.CrcSpec Spec.DvbSpec Spec.PsiSpec Proofs.PsiProofs Proofs.PsiParse Proofs.PsiParsePmt Proofs.PsiWritePmt Proofs.PsiDescLink Proofs.PsiParseSi Proofs.PsiSiLink.
+Require Import Model.Desc Spec.CrcSpec Spec.DvbSpec Spec.PsiSpec Proofs.PsiProofs Proofs.PsiParse Proofs.PsiParsePmt Proofs.PsiWritePmt Proofs.PsiDescLink Proofs.PsiParseSi Proofs.PsiSiLink Proofs.PsiUserDesc.
 Import ListNotations.
 Open Scope Z_scope.
 
@@ -193,6 +193,21 @@ Theorem C13_no_desc_premises : desc_premises no_desc16.
 Proof. exact no_desc_premises. Qed.
 Print Assumptions C13_no_desc_premises.
 
+(* the premises also hold for loops of user-defined (private) descriptors: tags 0x80..0xfe, bodies of 0..255
+   arbitrary bytes, any number of them below 4096 bytes -- proved against the real model of parseDescriptors.  So
+   the decoding theorems of all six table types are closed for sections whose descriptor loops consist of private
+   descriptors (and, trivially, for empty loops). *)
+Theorem C13_user_desc_premises : desc_premises ud_desc.
+Proof. exact ud_desc_premises. Qed.
+Print Assumptions C13_user_desc_premises.
+
+Theorem C13_pmt_section_parses_p : forall desc_enc, desc_premises desc_enc ->
+  forall ssi pb ext ver cni sn lsn pcr pds pbytes xs, pmt_wf desc_enc ext ver sn lsn pcr pds pbytes xs ->
+  sec_parses (spec_pmt_section ssi pb ext ver cni sn lsn pcr pbytes (map stream_spec xs))
+             (pmt_section_value ssi pb ext ver cni sn lsn pcr pds pbytes xs).
+Proof. exact pmt_sec_parses_p. Qed.
+Print Assumptions C13_pmt_section_parses_p.
+
 Theorem C13_parse_sdt : forall desc_enc, desc_premises desc_enc ->
   forall tid ssi pb ext ver cni sn lsn onid xs, sdt_wf desc_enc tid ext ver sn lsn onid xs ->
   sec_parses (spec_section tid ssi pb (spec_sdt_body ext ver cni sn lsn onid (map sv_spec xs)))
@@ -264,4 +279,15 @@ Example C13_example_si :
                          (spec_duration_ns 1 30 0) [bcd_byte 1; bcd_byte 30; bcd_byte 0] 4 false [] []];
             tot_section_value false true (spec_unix 51544 12 34 56) (spec_time_bytes 51544 12 34 56) [] [];
             stop_section 255 ] |}.
+Proof. vm_compute. reflexivity. Qed.
+
+(* a PMT whose program and stream descriptor loops hold private descriptors (one with an empty body) *)
+Example C13_example_pmt_userdesc :
+  let pd := [(200, [1; 2; 3]); (254, [])] in
+  let sd := [(128, [255])] in
+  parse_psi_data_bytes (0 :: spec_pmt_section true false 1 3 true 0 0 256 (flat_map ud_enc pd)
+                                [(27, 256, flat_map ud_enc sd)]) =
+  Ok {| PSIData_PointerField := 0;
+        PSIData_Sections := [pmt_section_value true false 1 3 true 0 0 256 (map ud_value pd) (flat_map ud_enc pd)
+                               [(27, 256, map ud_value sd, flat_map ud_enc sd)]] |}.
 Proof. vm_compute. reflexivity. Qed.
